@@ -53,6 +53,18 @@ class C10(Check):
         out.append({'kind': 'huge', 'what': 'text', 'size': 11 * 1024 * 1024 if tier == 'thorough' else 10 * 1024 * 1024 + 5000})
         out.append({'kind': 'huge', 'what': 'depth', 'size': 300})
         out.append({'kind': 'schema'})
+        # get-schema through the reply OBJECT (async mode keeps the GetSchemaReply) and through the synchronous path, for the profiles
+        # with a reply transform or a get-schema workaround; Junos also with its non-compliant <data> in the base namespace
+        for prof in ('default', 'junos', 'sros', 'alu'):
+            for shape in (('mon',) if prof != 'junos' else ('mon', 'base', 'unqualified-under-prefix')):
+                for asyn in (False, True):
+                    out.append({'kind': 'schema2', 'profile': prof, 'shape': shape, 'async': asyn})
+        # namespace bindings that are used only inside VALUES (identityref / instance-identifier): declared on <rpc-reply>, on <data> or
+        # on the element itself; data_ele / data_xml must still resolve them
+        for i in range(24 if tier == 'quick' else 400):
+            out.append({'kind': 'qname', 'op': ['get', 'get_config'][i % 2], 'where': ['reply', 'data', 'self'][i % 3],
+                        'prefix': rng.choice(['ianaift', 'acme', 'p', 'x-y']), 'uri': rng.choice(['urn:ietf:params:xml:ns:yang:iana-if-type', 'urn:acme:ports', 'http://ex/%d' % i]),
+                        'in_attr': rng.random() < 0.3, 'decl': rng.random() < 0.3})
         # operations that switch huge-tree support on for their own call (manager default: off)
         for op in ('get_schema', 'junos-get_configuration-text', 'sros-md_cli_raw_command'):
             out.append({'kind': 'huge-op', 'op': op, 'size': 10 * 1024 * 1024 + 5000})
@@ -91,6 +103,59 @@ class C10(Check):
                 return {'ok': True, 'len': len(v)}
             except Exception as e:
                 return {'ok': False, 'exc': type(e).__name__}
+        if case['kind'] == 'schema2':
+            text = 'module m { namespace "urn:m"; prefix m; leaf x { type string; description "é <&> ]]"; } }'
+            esc = text.replace('&', '&amp;').replace('<', '&lt;')
+            if case['shape'] == 'mon':
+                tmpl = '<rpc-reply message-id="%s" xmlns="' + BASE + '"><data xmlns="' + MON + '">' + esc + '</data></rpc-reply>'
+            elif case['shape'] == 'base':
+                tmpl = '<rpc-reply message-id="%s" xmlns="' + BASE + '"><data>' + esc + '</data></rpc-reply>'
+            else:
+                tmpl = '<nc:rpc-reply message-id="%s" xmlns:nc="' + BASE + '"><data>' + esc + '</data></nc:rpc-reply>'
+            m, s, dh = make_manager(profile=case['profile'], responder=lambda req, mid: tmpl % mid, raise_mode=0)
+            try:
+                if case['async']:
+                    m.async_mode = True
+                    rpc = m.get_schema('m')
+                    rpc.event.wait(2)
+                    r = rpc.reply
+                    return {'data': r.data, 'want': text, 'via': 'reply-object'}
+                r = m.get_schema('m')
+                if type(r).__name__ == 'NCElement':
+                    got = ''.join(nx.to_ele(r.data_xml).itertext())
+                    return {'data': got, 'want': text, 'via': 'ncelement'}
+                return {'data': r.data, 'want': text, 'via': 'reply'}
+            except Exception as e:
+                return {'data': None, 'want': text, 'via': 'exc:' + type(e).__name__ + ':' + str(e)[:80]}
+        if case['kind'] == 'qname':
+            pf, uri = case['prefix'], case['uri']
+            decl = ' xmlns:%s="%s"' % (pf, uri)
+            val = '%s:ethernetCsmacd' % pf
+            leaf = ('<type%s ref="%s"/>' if case['in_attr'] else '<type%s>%s</type>') % (decl if case['where'] == 'self' else '', val)
+            tmpl = ('<?xml version="1.0" encoding="UTF-8"?>' if case['decl'] else '') + \
+                '<rpc-reply message-id="%s" xmlns="' + BASE + '"' + (decl if case['where'] == 'reply' else '') + '><data' + \
+                (decl if case['where'] == 'data' else '') + '><interfaces xmlns="urn:ietf:params:xml:ns:yang:ietf-interfaces"><interface><name>e0</name>' + \
+                leaf + '</interface></interfaces></data></rpc-reply>'
+            m, s, dh = make_manager(responder=lambda req, mid: tmpl % mid, raise_mode=0)
+            r = m.get() if case['op'] == 'get' else m.get_config(source='running')
+            res = {}
+            for what, root in (('data_ele', r.data_ele), ('data_xml', ET.fromstring(r.data_xml.split('?>', 1)[-1] if r.data_xml.startswith('<?xml') else r.data_xml))):
+                if what == 'data_ele':
+                    t = [e for e in root.iter() if isinstance(e.tag, str) and e.tag.endswith('}type')][0]
+                    res[what] = t.nsmap.get(pf)
+                else:
+                    # independent reading: prefix bindings in scope at <type> according to xml.etree's event stream
+                    import io as _io
+                    scope, found = [], [None]
+                    for ev, x in ET.iterparse(_io.BytesIO(r.data_xml.encode('utf-8')), events=('start-ns', 'end-ns', 'start')):
+                        if ev == 'start-ns':
+                            scope.append(x)
+                        elif ev == 'end-ns':
+                            scope.pop()
+                        elif x.tag.endswith('}type'):
+                            found[0] = dict(scope).get(pf)
+                    res[what] = found[0]
+            return {'bound': res, 'want': uri}
         if case['kind'] == 'schema':
             text = 'module m { namespace "urn:m"; prefix m; leaf x { type string; description "é <&>"; } }'
             m, s, dh = make_manager(responder=lambda req, mid: '<rpc-reply message-id="%s" xmlns="%s"><data xmlns="%s">%s</data></rpc-reply>' % (
@@ -185,6 +250,18 @@ class C10(Check):
                 return {'ok': True, 'len': len(v)}
             except Exception as e:
                 return {'ok': False, 'exc': type(e).__name__}
+        if case['kind'] == 'schema2':
+            if io['data'] != io['want']:
+                return ('C10:schema-text-altered@%s/%s/%s' % (case['profile'], case['shape'], 'async' if case['async'] else 'sync'),
+                        'get_schema on %s (%s <data>, %s): the schema text the server sent is not what the caller gets (%s: %r)' % (
+                            case['profile'], case['shape'], 'reply object' if case['async'] else 'synchronous call', io['via'], (io['data'] or '')[:40]))
+            return None
+        if case['kind'] == 'qname':
+            for what, got in io['bound'].items():
+                if got != io['want']:
+                    return ('C10:value-prefix-unbound:' + what, '%s: prefix %r used in a value is bound to %r, the reply bound it to %r (declared on %s)' % (
+                        what, case['prefix'], got, io['want'], case['where']))
+            return None
         if case['kind'] == 'schema':
             if io['data'] != io['want']:
                 return ('C10:schema-text-altered', 'get_schema data differs from what the server sent')
